@@ -110,11 +110,41 @@ fn gen_collist(g: &mut G<'_>, allow_zero: bool) -> Vec<ColGen> {
     };
     let mut v: Vec<ColGen> = (0..n).map(|_| gen_colgen(g, n > 20)).collect();
     // descriptors that repeat themselves: a copy of an earlier column, the same name under another
-    // type, a column named like its table
-    if n >= 2 && g.chance(1, 8) {
+    // type, a column named like its table, a name cut out of the wire image of its neighbour's (length-prefix tail + name)
+    if n >= 2 && g.chance(1, 6) {
         let j = g.usize_in(1, n - 1);
         let i = g.usize_in(0, j - 1);
-        match g.below(4) {
+        match g.below(6) {
+            4 | 5 => {
+                // a name cut out of the *wire image* of its neighbour: the earlier column's table (or
+                // name) is long enough for a 3-byte length prefix whose two length bytes are ASCII,
+                // the later one's is that encoding from its 2nd, 3rd or 4th byte on - i.e. the tail
+                // of the length prefix followed by the whole earlier name, or the name less its
+                // first byte.  (What a cache comparing encoded bytes at a fixed offset would confuse.)
+                let i = if g.chance(2, 3) { j - 1 } else { i };
+                let len = ((g.usize_in(1, 0x7f)) << 8) | g.usize_in(0, 0x7f);
+                let t1 = NameSpec::Pat { seed: g.raw(), len }.get();
+                let len = t1.len();
+                let mut wire = vec![0xfcu8, (len & 0xff) as u8, (len >> 8) as u8];
+                wire.extend_from_slice(t1.as_bytes());
+                let k = g.usize_in(1, 3);
+                if let Ok(t2) = String::from_utf8(wire[k..].to_vec()) {
+                    let same_rest = g.coin();
+                    if g.chance(3, 4) {
+                        v[i].table = NameSpec::Lit(t1);
+                        v[j].table = NameSpec::Lit(t2);
+                        if same_rest { v[j].name = v[i].name.clone(); }
+                    } else {
+                        v[i].name = NameSpec::Lit(t1);
+                        v[j].name = NameSpec::Lit(t2);
+                        if same_rest { v[j].table = v[i].table.clone(); }
+                    }
+                    if same_rest {
+                        v[j].coltype = v[i].coltype;
+                        v[j].flags = v[i].flags;
+                    }
+                }
+            }
             0 => v[j] = v[i].clone(),
             1 => v[j].name = v[i].name.clone(),
             2 => v[j].table = v[j].name.clone(),
@@ -178,7 +208,7 @@ impl Prop for C09 {
         true
     }
     fn rule(&self) -> String {
-        "cases = a list of 0-1023 column descriptors (table/column names of 0 to 70000 bytes biased to 249-256 and 65534-65537, non-ASCII UTF-8, plus enumerated ~16 MiB names that make one definition as large as, or larger than, a wire packet; every ColumnType variant; flag words from all 16 bits) used as a text resultset header, a binary resultset header, or a PREPARE reply (arbitrary u32 statement id, independent parameter and column lists); one case in eight is one reply of 2-4 resultsets whose column lists are prefixes of one list (the empty prefix included: a column-less resultset between others) and reach the library as slices of one allocation; one case in six is a sequence of 2-6 PREPAREs whose replies take their ids from a pool of three, so that an id that is still open (possibly with pending long data or after an execution) or was just closed is handed out again with other parameter / column lists, and every reply is checked. Oracle: decoded count and per column table, name, type, flags in order equal the declared ones; PREPARE_OK id / num_params / num_columns equal; mysql_common's Column parser agrees. Non-trivial = > 250 columns, or a name > 250 bytes, or flags with >= 3 bits.".into()
+        "cases = a list of 0-1023 column descriptors (table/column names of 0 to 70000 bytes biased to 249-256 and 65534-65537, non-ASCII UTF-8, plus enumerated ~16 MiB names that make one definition as large as, or larger than, a wire packet; every ColumnType variant; flag words from all 16 bits) used as a text resultset header, a binary resultset header, or a PREPARE reply (arbitrary u32 statement id, independent parameter and column lists); one case in eight is one reply of 2-4 resultsets whose column lists are prefixes of one list (the empty prefix included: a column-less resultset between others) and reach the library as slices of one allocation; one list in six repeats itself (a copied descriptor, a shared name, joined-name collisions, a table/column name that is the tail of the length-encoded wire image of the neighbouring descriptor's name of 256-32639 bytes); one case in six is a sequence of 2-6 PREPAREs whose replies take their ids from a pool of three, so that an id that is still open (possibly with pending long data or after an execution) or was just closed is handed out again with other parameter / column lists, and every reply is checked. Oracle: decoded count and per column table, name, type, flags in order equal the declared ones; PREPARE_OK id / num_params / num_columns equal; mysql_common's Column parser agrees. Non-trivial = > 250 columns, or a name > 250 bytes, or flags with >= 3 bits.".into()
     }
     fn cases(&self, tier: Tier) -> u64 {
         tier.pick(60000, 600000)
